@@ -1048,3 +1048,56 @@ class C15Run(Base):
 
 MONITORS["C14"] = C14Run
 MONITORS["C15"] = C15Run
+
+
+# -- C05 in runs: the unit a lifting scheme selects always has a strictly negative recorded derivative ------------------------
+class C05Run(Base):
+    prop = "C05"
+
+    def on_start(self, bus):
+        from jellyfysh.lifting.lifting import Lifting
+        from jellyfysh.lifting.inside_first_lifting import InsideFirstLifting
+        from jellyfysh.lifting.outside_first_lifting import OutsideFirstLifting
+        from jellyfysh.lifting.ratio_lifting import RatioLifting
+        mon = self
+        self._saved = [(Lifting, "insert", Lifting.insert), (Lifting, "reset", Lifting.reset)]
+        tables = {}
+        oi, orst = Lifting.insert, Lifting.reset
+
+        def insert(s, rate, ident, is_active):
+            tables.setdefault(id(s), []).append((tuple(ident), rate, is_active))
+            return oi(s, rate, ident, is_active)
+
+        def reset(s):
+            tables[id(s)] = []
+            return orst(s)
+        Lifting.insert, Lifting.reset = insert, reset
+        for cls in (InsideFirstLifting, OutsideFirstLifting, RatioLifting):
+            og = cls.get_active_identifier
+            self._saved.append((cls, "get_active_identifier", og))
+
+            def get(s, og=og, cls=cls):
+                r = og(s)
+                t = tables.get(id(s), [])
+                mon.acc.count("in_run_lifting_selections")
+                by = mon.acc.counters.setdefault("in_run_lifting_selections_by_scheme", {})
+                by[cls.__name__] = by.get(cls.__name__, 0) + 1
+                rates = [q for i, q, a in t if i == tuple(r)]
+                tot = sum(q for _, q, _ in t)
+                scale = sum(abs(q) for _, q, _ in t) or 1.0
+                if len(t) > 2:
+                    mon.acc.count("in_run_lifting_tables_with_more_than_two_units")
+                if not rates or not all(q < 0 for q in rates):
+                    mon.viol(bus, "nonnegative-derivative-selected-in-run",
+                             f"{cls.__name__} selected unit {r} whose recorded derivative is {rates} (table {t})")
+                if abs(tot) > 1e-9 * scale:
+                    mon.acc.count("in_run_tables_not_summing_to_zero")
+                return r
+            cls.get_active_identifier = get
+
+    def on_end(self, bus):
+        for cls, name, f in self._saved:
+            setattr(cls, name, f)
+
+
+MONITORS["C05"] = C05Run
